@@ -58,6 +58,19 @@
   being the verdict "more values" with a white-space run directly after `;` or `=` before the comma (`<a>;tag= ,<b>`).
   NOT proved: that a Contact header's Val starts with its first value and ends with its last (containment only);
   leading / inner white space of the spans; the `first` / `last` overflow slots of the contact list.
+  SCOPE NOTES after the second sceptical review (tools/agent_prompts/AB1_audit_new.txt; nothing false was found, these
+  sentences were too generous):
+  * every `_init` theorem of this file takes the object of `Init` over ZERO-VALUED caller arrays (new or cleared; Go's
+    Init does not clear them and a stale finished slot does change the parse — pinned by tests); "any capacity" stands.
+  * `values_in_headers_*` (PaiLines, `PlAssoc`): the line index of a value is existentially quantified and only constrained
+    for STORED headers, so the statement carries content when all header lines were stored (`hl.n ≤` capacity); once the
+    header array overflows it is satisfied trivially. The `HxAssoc` form (`values_exact_*`, HnoExact) is the one to read:
+    exact for stored values and stored headers — the counts `cnt` are existential (not shown unique) and the type of a
+    line that was not stored is a ghost function; `assoc_value_line` gives existence of the line, not uniqueness.
+  * "trimming": proved is only that the LAST byte of V (and of the parameter span) is not SP / HT / CR / LF, with the one
+    exception stated; nothing is claimed about Name, URI, Tag or leading white space (a display name `"A B"  <…>` does end
+    with blanks, in the model and in Go).
+  * `msg_trim_schedule_init` speaks about SOME buffer of the schedule (`∃ b ∈ l`), not explicitly the last one.
 -/
 import Sipsp.Proofs.Layout
 import Sipsp.Properties.C01
